@@ -37,7 +37,8 @@ fuzz_target!(|data: &[u8]| {
     });
     let case = decode_case(data);
     if let Err(f) = check_case(prop, defs, &case) {
-        let d = &defs[vcore::pick(case.def, defs.len())].2;
+        let eligible: Vec<usize> = (0..defs.len()).filter(|&k| prop != "C16" || defs[k].2.has_clone()).collect();
+        let d = &defs[eligible[vcore::pick(case.def, eligible.len().max(1)).min(eligible.len().saturating_sub(1))]].2;
         eprintln!(
             "FUZZ-FAILURE {}",
             serde_json::json!({"property": prop, "signature": f.signature, "message": f.message, "case": case,
